@@ -13,6 +13,11 @@ EVO_DIR = HOME + "/.evo"
 SETTINGS_PATH = EVO_DIR + "/settings.json"
 VERSION_PATH = EVO_DIR + "/assets_version"
 WORK = HOME + "/work"
+# other spellings of the package settings file a user may pass with -c
+SETTINGS_ALIASES = [EVO_DIR + "/../.evo/settings.json",
+                    EVO_DIR + "/./settings.json",
+                    HOME + "//.evo/settings.json",
+                    EVO_DIR + "/../.evo/./settings.json"]
 
 _cache = {}
 
